@@ -146,6 +146,13 @@ def _snapshot_rule(chk, cols):
                           'previous_value becomes the same object as value: after a save/load, an in-place change of a collection column (add, append, item assignment) leaves value == previous_value, so no CQL is emitted and the row silently diverges from the instance')
     if n < 3:
         raise AnalysisError('C35.snapshot: writers of previous_value not found (%d)' % n)
+    # the generic manager holds plain and (nested, frozen) collection values: its snapshot must not share inner containers with the live value
+    brp = cols.func('BaseValueManager.reset_previous_value')
+    asg = [st for st in body_walk(brp) if isinstance(st, ast.Assign) and any(isinstance(t, ast.Attribute) and t.attr == 'previous_value' for t in st.targets)]
+    deep = len(asg) == 1 and isinstance(asg[0].value, ast.Call) and src(asg[0].value.func) in ('deepcopy', 'copy.deepcopy') and src(asg[0].value.args[0]) == 'self.value'
+    chk.judge(deep, 'C35.snapshot', brp, 'BaseValueManager.reset_previous_value: previous_value = deepcopy(self.value)',
+              'the snapshot of a column value is a shallow copy (%s): a list of lists / map of sets shares its inner containers with the live value, so an in-place edit of an inner container '
+              'after a save compares equal to the snapshot and no UPDATE is emitted' % (src(asg[0].value) if asg else None))
 
     # after a save / update the snapshot is refreshed for every value the statements wrote: the predicates of the value manager that make
     # DMLQuery emit something (changed -> SET / INSERT, deleted -> DELETE column) must all select the value in _set_persisted
